@@ -150,6 +150,45 @@ def do_op(sut, op, m):
     raise ValueError(f"unknown op {op!r}")
 
 
+class _SetSpy:
+    """Records the block accesses a memory system issues to its cache (instance-level wrappers around
+    Cache.read_block / Cache.write_block; nothing in /repo is changed)."""
+
+    def __init__(self):
+        self.log = []
+
+    def attach(self, sut):
+        cache = sut.cache
+        if getattr(cache, "_dst_spy", None) is self:
+            return
+        rb, wb = cache.read_block, cache.write_block
+        log = self.log
+
+        def read_block(da, _rb=rb):
+            log.append(("RB", da.cache_set_index, da.tag))
+            return _rb(da)
+
+        def write_block(da, values, _wb=wb):
+            log.append(("WB", da.cache_set_index, da.tag))
+            return _wb(da, values)
+
+        cache.read_block = read_block
+        cache.write_block = write_block
+        cache._dst_spy = self
+
+
+class _LazyRefSets(dict):
+    def __init__(self, ways, strat):
+        super().__init__()
+        self.ways, self.strat = ways, strat
+
+    def __missing__(self, k):
+        from .models import RefSet
+
+        v = self[k] = RefSet(self.ways, self.strat)
+        return v
+
+
 def classify(cfg, op):
     """What the *statement* says about this access: ('ok'|'crossing'|'range', a)."""
     w, addr = op[1], op[2]
@@ -175,7 +214,10 @@ def exec_cache(trace, prop) -> Result:
             idxs.add(ref.split(op[2] & MASK32)[0])
             idxs.add(ref.split((op[2] + op[1] - 1) & MASK32)[0])
     idxs = sorted(idxs)
-    policies = {k: RefPolicy(cfg["ways"], cfg["strat"]) for k in idxs}
+    spy = _SetSpy()
+    c10_sets = _LazyRefSets(cfg["ways"], cfg["strat"])
+    if prop == "C10":
+        spy.attach(sut)
     touched = set()  # word addresses
     hs = Hasher()
     accepted = 0
@@ -217,7 +259,7 @@ def exec_cache(trace, prop) -> Result:
     for i, op in enumerate(ops):
         kind = op[0]
         pre_ctr = counters(sut, pm)
-        pre_sets = impl_sets(sut, idxs) if prop in ("C09", "C10") or kind in ("R", "W") else None
+        pre_sets = impl_sets(sut, idxs) if prop == "C09" or kind in ("R", "W") else None
         pre_logical = None
         cls = a = None
         if kind in ("R", "W"):
@@ -351,51 +393,45 @@ def exec_cache(trace, prop) -> Result:
                 if kind == "RESET":
                     ref.clear()
 
-        # ---------------- C10: replacement policy as observed on fills and touches
+        # ---------------- C10: replacement policy against the block accesses the set really received
+        # (recorded by a spy on Cache.read_block / Cache.write_block of this instance, so that what the
+        # memory system chooses to send to the set - C03/C09's business - cannot surface as a C10 alarm)
         if prop == "C10":
-            if kind in ("R", "W") and not rejected:
-                idx, tag = ref.split(a)
-                pre_blocks = pre_sets[idx][0]
-                post = impl_sets(sut, idxs)
-                post_blocks = post[idx][0]
-                way_hit = next((j for j, (v, t) in enumerate(pre_blocks) if v and t == tag), None)
-                pol = policies[idx]
-                if way_hit is not None:
-                    pol.touch(way_hit)
-                    res.probes["policy touch on hit"] += 1
-                else:
-                    way_new = next((j for j, (v, t) in enumerate(post_blocks) if v and t == tag), None)
-                    if way_new is not None:
-                        want = pol.victim()
-                        if way_new != want:
-                            res.violate("C10", "wrong-victim", at=i, expected=want, got=way_new, op=op, set=idx, policy_state=pol.repr())
-                            break
-                        pol.touch(way_new)
-                        res.probes["fill" + (" displacing a valid block" if pre_blocks[way_new][0] else " into an invalid way")] += 1
-                for k, (blocks, rep) in post.items():
-                    if [bool(x) if cfg["strat"] == "plru" else int(x) for x in rep] != policies[k].repr():
-                        res.violate("C10", "policy-state", at=i, expected=policies[k].repr(), got=list(rep), op=op, set=k)
-                        break
-                if res.violations:
+            if kind == "RESET":
+                c10_sets.clear()
+                spy.attach(sut)
+                spy.log.clear()
+            for (what, k, tag) in spy.log:
+                ms = c10_sets[k]
+                w = ms.find(tag)
+                if w is not None:
+                    ms.policy.touch(w)
+                    res.probes["policy touch on " + ("read hit" if what == "RB" else "write hit")] += 1
+                elif what == "WB":
+                    v = ms.policy.victim()
+                    res.probes["fill" + (" displacing a valid block" if ms.tags[v] is not None else " into an invalid way")] += 1
+                    ms.tags[v] = tag
+                    ms.policy.touch(v)
+            n_acc = len(spy.log)
+            spy.log.clear()
+            post = impl_sets(sut, idxs)
+            for k, (blocks, rep) in post.items():
+                ms = c10_sets[k]
+                got_tags = [t if v else None for v, t in blocks]
+                if got_tags != ms.tags:
+                    res.violate("C10", "wrong-victim", at=i, expected=ms.tags, got=got_tags, op=op, set=k,
+                                note="ways holding the blocks after the recorded fills differ from the policy's victims")
                     break
-                if prev_op == op and way_hit is not None:
-                    res.probes["same access twice in a row (idempotence)"] += 1
-                if cfg["strat"] == "plru" and cfg["ways"] >= 4:
-                    res.probes["plru tree of depth >= 2 exercised"] += 1
-            elif kind == "RESET":
-                policies = {k: RefPolicy(cfg["ways"], cfg["strat"]) for k in idxs}
-            elif kind in ("R", "W"):
-                for k, (blocks, rep) in impl_sets(sut, idxs).items():
-                    policies[k].load_repr(rep)
-                res.relaxations["C10 policy resynchronised after rejected access"] += 1
-            else:
-                # PRE / INSPECT must not move the policy
-                for k, (blocks, rep) in impl_sets(sut, idxs).items():
-                    if [bool(x) if cfg["strat"] == "plru" else int(x) for x in rep] != policies[k].repr():
-                        res.violate("C10", "policy-state-changed-by-inspection", at=i, expected=policies[k].repr(), got=list(rep), op=op, set=k)
-                        break
-                if res.violations:
+                if [bool(x) if cfg["strat"] == "plru" else int(x) for x in rep] != ms.policy.repr():
+                    res.violate("C10", "policy-state" if n_acc else "policy-state-changed-without-a-block-access", at=i,
+                                expected=ms.policy.repr(), got=list(rep), op=op, set=k)
                     break
+            if res.violations:
+                break
+            if prev_op == op and kind in ("R", "W") and not rejected:
+                res.probes["same access twice in a row (idempotence)"] += 1
+            if cfg["strat"] == "plru" and cfg["ways"] >= 4 and n_acc:
+                res.probes["plru tree of depth >= 2 exercised"] += 1
 
         # ---------------- C12: backing store vs logical contents
         if prop == "C12":
